@@ -1491,12 +1491,10 @@ func (c *c06Case) step(op string) {
 		k := atoi(f[1])
 		upd := fmt.Sprintf("updacct %d h%s", k, f[2])
 		completeLast := false
-		if prev != nil && prev.P != nil {
-			if st, in := prev.P.A[k]; in {
-				if got, found := ob.A[k]; found && got.Hint == st.Hint && strconv.FormatInt(st.Hint, 10) != f[2] {
-					completeLast = true
-				}
-			}
+		if got, found := ob.A[k]; found && raceRes[1] == "ok" && strconv.FormatInt(got.Hint, 10) != f[2] {
+			// the updates succeeded but their height hint is gone: the
+			// completion (with account k staged) came last
+			completeLast = true
 		}
 		if completeLast {
 			r.Emit("C06 "+upd, raceRes[1])
